@@ -77,7 +77,7 @@ type imgObs struct {
 type c07Case struct {
 	Cfg   walCfg  `json:"cfg"`
 	Ops   []walOp `json:"ops"`
-	Crash bool    `json:"crash"` // also enumerate crash images
+	Crash bool    `json:"crash"`          // also enumerate crash images
 	Cuts  bool    `json:"cuts,omitempty"` // also cut the newest file at byte lengths (every length, or around every record header for big files)
 	// observations
 	Files    []string `json:"files"`
